@@ -59,6 +59,27 @@ def contracts():
         class_fields=CF, macros=MACROS, returns="none", native=NATIVE,
         property_clauses={"drains_next": "C07"},
         doc={"drains_next": "C07: fast_forward() is the same run: it iterates next() to exhaustion and does nothing else (frame)"}))
+    L = "self._limit_collection_to"
+    Q = "ufun_int('any_position', 0)"
+    cs.append(Contract(
+        target=f"{CP}::CsvPath.limit_collection", variant="projection",
+        types={"line": "list[str]", L: "list[int]", "self._collecting": "bool"},
+        requires=[f"forall_int(0, len({L}), lambda j: {L}[j] >= 0)"],
+        raises={"InputException": {"when": f"exists_int(0, len({L}), lambda j: {L}[j] >= len(line))", "exact": True}},
+        # Q is an uninterpreted constant: a clause proved about position Q is proved about every position (quantifier-free obligations)
+        ensures={"the_line_itself_without_a_collect_list": f"implies(len({L}) == 0, result == line)",
+                 "the_listed_headers_in_order_whoever_drives_the_run": f"implies(len({L}) > 0, len(result) == len({L}) and "
+                                                                        f"implies(0 <= {Q} and {Q} < len({L}), result[{Q}] == line[{L}[{Q}]]))"},
+        invariants={0: [f"len(ls) == _i0", f"implies(0 <= {Q} and {Q} < _i0, ls[{Q}] == line[{L}[{Q}]])", f"forall_int(0, _i0, lambda j: {L}[j] < len(line))"]},
+        list_literals={"ls": "list[str]"}, loop_havoc={0: ["ls"]}, lemmas=["append_nth"],
+        covers={"narrows_while_not_collecting": f"not self._collecting and len({L}) > 0"},
+        inline=["CsvPath.limit_collection_to", "CsvPath.collecting", "CsvPath.identity", "CsvPath.line_monitor", "LineMonitor.physical_line_number"],
+        class_fields=CF, macros=MACROS, returns="list[str]",
+        native={"spec_funs": {"any_position": "def fun(x):\n    return 0\n"},
+                "examples": [{"line": ["1", "apple", "red"], L: [1], "self._collecting": False}, {"line": ["1", "apple", "red"], L: [2, 0], "self._collecting": True},
+                             {"line": ["1", "apple"], L: [], "self._collecting": False}]},
+        property_clauses={"the_line_itself_without_a_collect_list": "C07,C06", "the_listed_headers_in_order_whoever_drives_the_run": "C07"},
+        doc={"the_listed_headers_in_order_whoever_drives_the_run": "C07: 'collect() returns the same lines that next() yields' -- what a line is narrowed to depends on the line and the collect() list only, not on the method driving the run"}))
     cr = core.select(core.contracts(), ("CsvPath.next",))
     return cs + interfaces() + cr
 
